@@ -21,6 +21,7 @@ CONSTANTS
   IsoTy <- MCIsoTy
   IsoMatVer <- MCIsoMatVer
   IsoAdsVer <- MCIsoAdsVer
+  IsoTemp <- MCIsoTemp
   IsoClass <- MCIsoClass
   Traits <- MCTraits
 CHECK_DEADLOCK FALSE
